@@ -46,6 +46,75 @@ theorem kt_eq_zero_iff (a b : List Nat) (h : SameRanking a b) : kt a b = 0 ↔ a
     subst e
     rw [kt_eq_dis' a a h.1, dis_self]
 
+/-- the number of comparisons made by the double loop -/
+theorem two_pairCount (a : List Nat) : 2 * pairCount a = a.length * (a.length - 1) := by
+  induction a with
+  | nil => rfl
+  | cons x rest ih =>
+    simp only [pairCount, List.length_cons, Nat.add_sub_cancel, Nat.mul_add, ih]
+    cases rest.length with
+    | zero => rfl
+    | succ k =>
+      simp only [Nat.add_sub_cancel]
+      rw [Nat.add_mul (k + 1) 1 (k + 1), Nat.mul_add (k + 1) k 1]
+      omega
+
+theorem pairCount_eq (a : List Nat) : pairCount a = a.length * (a.length - 1) / 2 := by
+  have := two_pairCount a
+  omega
+
+theorem pairCount_pos (a : List Nat) (h2 : 2 ≤ a.length) : 0 < pairCount a := by
+  rcases a with _ | ⟨x, _ | ⟨y, t⟩⟩
+  · simp at h2
+  · simp at h2
+  · simp only [pairCount, List.length_cons]; omega
+
+theorem pairCount_small (a : List Nat) (h2 : a.length < 2) : pairCount a = 0 := by
+  rcases a with _ | ⟨x, _ | ⟨y, t⟩⟩
+  · rfl
+  · rfl
+  · simp only [List.length_cons] at h2; omega
+
+theorem kt_le_pairCount (a b : List Nat) : kt a b ≤ pairCount a := by
+  induction a with
+  | nil => simp [kt, pairCount]
+  | cons x rest ih =>
+    simp only [kt, pairCount]
+    have := List.length_filter_le (fun y => decide (b.idxOf x > b.idxOf y)) rest
+    omega
+
+/-- `normalise=True`: inside the domain the result is the number of pairs ordered differently divided by
+the number `m(m-1)/2` of pairs, lies in [0, 1] and is 0 exactly on identical rankings -/
+theorem ktNorm_correct (a b : List Nat) (h : SameRanking a b) (h2 : 2 ≤ a.length) :
+    kendallTauNorm a b = .ok (dis a b a) (a.length * (a.length - 1) / 2) ∧
+    dis a b a ≤ a.length * (a.length - 1) / 2 ∧ 0 < a.length * (a.length - 1) / 2 ∧
+    (dis a b a = 0 ↔ a = b) := by
+  have hd := (defined_on_domain a b h).1
+  have hk := kt_eq_dis a b h
+  have hp := pairCount_eq a
+  have hpos := pairCount_pos a h2
+  refine ⟨?_, ?_, ?_, ?_⟩
+  · unfold kendallTauNorm
+    rw [hd]
+    simp only
+    rw [if_neg (by omega), hk, hp]
+  · rw [← hk, ← hp]; exact kt_le_pairCount a b
+  · omega
+  · rw [← hk]; exact kt_eq_zero_iff a b h
+
+/-- `normalise=True` outside the domain: refused like the plain call when the lengths differ, and a
+division by zero on rankings with fewer than two items -/
+theorem ktNorm_errors (a b : List Nat) :
+    (a.length ≠ b.length → kendallTauNorm a b = .valueError) ∧
+    (a.length = b.length → a.length < 2 → kendallTauNorm a b = .zeroDivision) := by
+  constructor
+  · intro hl
+    simp [kendallTauNorm, kendallTau?, hl]
+  · intro hl h2
+    have hp := pairCount_small a h2
+    have h3 : ¬ (2 ≤ b.length) := by omega
+    simp [kendallTauNorm, kendallTau?, hl, hp, h3]
+
 /-- Sertel numerator is zero exactly on identical rankings (needs ≥ 2 alternatives:
 two rankings of the same set cannot first differ in the last position) -/
 theorem sertel_eq_zero_iff (a b : List Nat) (h : SameRanking a b) (h2 : 2 ≤ a.length) :
